@@ -534,7 +534,11 @@ NoGuessing ==
 NoGuessingClient ==
   (mode # "build" /\ FirstAmbig > 0 /\ View = "client" /\
    ~\E i \in 1..Len(msgs[FirstAmbig].hs) : msgs[FirstAmbig].hs[i] \in {"tecg", "teid"}) =>
-     \A s \in S : Len(s.out) < FirstAmbig \/ ctx.rq = <<>> \/ \E i \in 1..FirstAmbig : msgs[i].l = "s100"
+     \* (a response to HEAD and a 204 / 304 response end after the header section whatever their fields say,
+     \*  RFC 9112 6.3 rule 1 - their Content-Length is not used for framing, so nothing is guessed)
+     \A s \in S : \/ Len(s.out) < FirstAmbig \/ ctx.rq = <<>> \/ \E i \in 1..FirstAmbig : msgs[i].l = "s100"
+                  \/ msgs[FirstAmbig].l \in {"s204", "s304"}
+                  \/ (FirstAmbig <= Len(ctx.rq) /\ ctx.rq[FirstAmbig] = "HEAD")
 
 TypeOK == mode \in {"build", "sealed", "recv", "end"} /\ pos >= 0
 
